@@ -90,7 +90,7 @@ def access_words(ref):
     return [words[q] for q in sorted(words)]
 
 
-DEFAULT_PARAMS = dict(scanN=3, scanMinN=0, scanLexN=6, scanPadN=1, scanPads=[0], scanTails=['\n'], c14N=3, scanAccN=2, scanBigs=[4096], scanLayN=1)
+DEFAULT_PARAMS = dict(scanN=3, scanMinN=0, scanLexN=6, scanPadN=1, scanPads=[0], scanTails=['\n'], c14N=3, scanAccN=2, scanBigs=[4096], scanLayN=1, scanInvN=2)
 
 
 def scan_files(sc, ref, pairs, **params):
